@@ -1,4 +1,5 @@
 import EpgVerif.Props.C15
+import EpgVerif.Tie.PhysSites
 open EpgVerif.Props.C15
 #print axioms box_factor
 #print axioms box_is_average
@@ -10,3 +11,4 @@ open EpgVerif.Props.C15
 #print axioms point_voxel_is_isochromat
 #print axioms EpgVerif.Props.C04.finsum_eq_list_sum
 #print axioms EpgVerif.Props.C04.nodup_run
+#print axioms EpgVerif.Tie.PhysSites.sites_as_modelled
